@@ -223,6 +223,17 @@ func bHTTPFilter(n *Node) *hcmv3.HttpFilter {
 		if b := n.arg(0); !b.isNone() {
 			l.TokenBucket = &typev3.TokenBucket{MaxTokens: uint32(b.some().arg(0).num()), TokensPerFill: u32(b.some().arg(1)),
 				FillInterval: durationpb.New(time.Second)}
+			// generator-only: other fill intervals (same source term: the decoder does not read the interval)
+			switch {
+			case n.hasFlag("fill-500ms"):
+				l.TokenBucket.FillInterval = durationpb.New(500 * time.Millisecond)
+			case n.hasFlag("fill-0"):
+				l.TokenBucket.FillInterval = durationpb.New(0)
+			case n.hasFlag("fill-absent"):
+				l.TokenBucket.FillInterval = nil
+			case n.hasFlag("fill-1h"):
+				l.TokenBucket.FillInterval = durationpb.New(time.Hour)
+			}
 		}
 		f.ConfigType = &hcmv3.HttpFilter_TypedConfig{TypedConfig: mustAny(xdsresource.RateLimitTypeURL, l)}
 	case "HFRateLimitBad":
